@@ -114,6 +114,7 @@ type consRec struct {
 	Call int    // index of the harness-level call in the history
 	Part string // main | close
 	Pre  bool   // base state at consultation time == base state when the harness-level call started
+	Gen  int    // which recording function was consulted (when.go); the one installed at that moment unless the consultation is stale
 }
 
 func (c consRec) String() string {
@@ -128,11 +129,13 @@ type callCtx struct {
 	Variant string
 	start   string
 	from    int
+	rec     bool // a recording failure function was installed when the call started (when.go)
 }
 
 type sys struct {
 	baseName string
 	plan     string // none | okfunc | readonly | fault
+	when     string // when the function of the plan is installed, replaced, removed (when.go); "": before the first call
 	stack    string // what the FailFS under test is built on besides the bare base (stack.go); "": the base itself
 	lowerFn  string // ff-ro-mid stack: the function the lower FailFS carries now
 	ops      []op
@@ -144,6 +147,12 @@ type sys struct {
 	nsteps     int
 	lastKey    string
 	viols      []bfs.Viol
+
+	// schedule of SetFailFunc calls (when.go)
+	fnEvents  []fnEvent
+	fnNext    int
+	gen       int    // number of the recording function installed now; -1: none
+	installed string // "": nothing yet | plan | plan#1 | removed
 
 	// recorder
 	trace   []consRec
@@ -172,8 +181,16 @@ type sys struct {
 	setupChecked bool
 }
 
-func newSys(baseName, plan, stack string) *sys {
-	return &sys{baseName: baseName, plan: plan, stack: stack, ops: buildOps(baseName, stack), K: -1, invoked: map[avfs.FnVFS]bool{}}
+// newSys: plan is a plan name, plan[@when] (when.go).
+func newSys(baseName, planName, stack string) *sys {
+	plan, when := splitPlan(planName)
+	s := &sys{baseName: baseName, plan: plan, stack: stack, ops: buildOps(baseName, stack), K: -1, invoked: map[avfs.FnVFS]bool{}}
+
+	if err := s.setWhen(when); err != nil {
+		s.when, s.fnEvents = when, nil // Reset refuses
+	}
+
+	return s
 }
 
 func (s *sys) NumOps() int           { return len(s.ops) }
@@ -282,9 +299,12 @@ func (s *sys) Reset() error {
 		return err
 	}
 
-	if !knownStack(s.stack) || (s.stack != "" && s.plan == "readonly") || (planOnLower(s.stack) && s.plan == "none") {
-		return fmt.Errorf("no system %s", sysName(s.baseName, s.plan, s.stack))
+	if !knownStack(s.stack) || (s.stack != "" && s.plan == "readonly") || (planOnLower(s.stack) && s.plan == "none") ||
+		s.fnEvents == nil || (s.when != "" && (s.stack != "" || s.plan == "none")) || (s.when == whenSwap && s.plan == "readonly") {
+		return fmt.Errorf("no system %s", sysName(s.baseName, planWhen(s.plan, s.when), s.stack))
 	}
+
+	s.fnNext, s.gen, s.installed = 0, -1, ""
 
 	s.impl = &side{base: a}
 	s.lowerFn = "OkFunc"
@@ -311,11 +331,11 @@ func (s *sys) Reset() error {
 	switch s.plan {
 	case "none":
 	case "okfunc", "fault":
-		if !planOnLower(s.stack) {
-			_ = s.ff.SetFailFunc(s.failFn)
+		if planOnLower(s.stack) {
+			// armLower has installed the recording function on the lower FailFS
+			s.fnNext, s.gen, s.installed = len(s.fnEvents), 0, "plan"
 		}
 	case "readonly":
-		_ = s.ff.SetFailFunc(failfs.ReadOnlyFunc)
 		s.impl.obs = a
 
 		if s.baseName == "MemFS" {
@@ -365,6 +385,9 @@ func (s *sys) Reset() error {
 	}
 
 	s.setupChecked = true
+
+	// the SetFailFunc calls that precede the first call of the history (when.go)
+	s.advanceFn(0)
 
 	if s.plan != "fault" {
 		s.lastKey = s.key() // the fault plan has no use for Key(): its callers compute key() when they need it
@@ -517,7 +540,16 @@ func (s *sys) keySide(sb *strings.Builder, ref *side, ri int, probe, withBase bo
 		fmt.Fprintf(sb, "\nh%d: %s", slot, s.handleDesc(ref, slot, probe))
 	}
 
-	fmt.Fprintf(sb, "\nsub: %s %s\nrnd=%d", ref.suborig, viewState(ref.sub, ri == 1 && twinWrapped(s.stack)), s.rnd[ri])
+	// temp names drawn so far, on BOTH sides: over a base that refuses changes the
+	// FailFS draws a name for MkdirTemp (re-implemented over itself) before its
+	// Mkdir is refused, the twin is refused before it draws - the next temp call
+	// of the FailFS then gets another name, which is a different state
+	fmt.Fprintf(sb, "\nsub: %s %s\nrnd=%d/%d", ref.suborig, viewState(ref.sub, ri == 1 && twinWrapped(s.stack)), s.rnd[0], s.rnd[1])
+
+	if s.when != "" {
+		// the function installed now and the SetFailFunc calls still to come are part of the state
+		fmt.Fprintf(sb, "\nfn=%s next=%d", s.installed, s.fnNext)
+	}
 
 	if s.stack == stRoMid {
 		sb.WriteString("\nlower=" + s.lowerFn)
@@ -606,13 +638,31 @@ func renderParam(fp *failfs.FailParam) string {
 	return strings.Join(p, " ")
 }
 
-func (s *sys) failFn(_ avfs.VFSBase, fn avfs.FnVFS, fp *failfs.FailParam) error {
+// failFn is recording function #0 (the only one of a system without schedule).
+func (s *sys) failFn(v avfs.VFSBase, fn avfs.FnVFS, fp *failfs.FailParam) error {
+	return s.consult(0, v, fn, fp)
+}
+
+// consult is the body of every recording failure function of the system; gen
+// says which of them was called.
+func (s *sys) consult(gen int, _ avfs.VFSBase, fn avfs.FnVFS, fp *failfs.FailParam) error {
 	st := baseState(s.impl.base)
 
 	s.checkPending(st, "next-consultation")
 
 	idx := len(s.trace)
-	s.trace = append(s.trace, consRec{Fn: fn, P: renderParam(fp), Call: s.cur.Idx, Part: s.cur.Part, Pre: st == s.cur.start})
+	s.trace = append(s.trace, consRec{Fn: fn, P: renderParam(fp), Call: s.cur.Idx, Part: s.cur.Part, Pre: st == s.cur.start, Gen: gen})
+
+	if gen != s.gen {
+		// the object that consults holds on to a function that SetFailFunc has replaced or removed
+		now := "recording function #" + strconv.Itoa(s.gen)
+		if s.gen < 0 {
+			now = "no recording function (" + s.installed + ")"
+		}
+
+		s.addViol(s.sig(s.cur, "stale-function", "consults the function installed now", "consults a function that was replaced"),
+			fmt.Sprintf("%s consulted recording function #%d; installed now: %s", fn, gen, now))
+	}
 
 	if s.plan == "fault" && idx == s.K {
 		s.fired = true
@@ -639,6 +689,10 @@ func (s *sys) sig(ctx callCtx, kind, want, got string) map[string]string {
 
 	if s.stack != "" {
 		m["stack"] = s.stack
+	}
+
+	if s.when != "" {
+		m["when"] = s.when
 	}
 
 	return m
@@ -675,6 +729,7 @@ func (s *sys) beginCall(ctx callCtx) {
 	}
 
 	ctx.from = len(s.trace)
+	ctx.rec = s.gen >= 0
 	s.cur = ctx
 }
 
@@ -691,8 +746,8 @@ func (s *sys) endCall(r result) {
 
 	switch s.plan {
 	case "okfunc":
-		if len(own) == 0 {
-			return
+		if len(own) == 0 || !ctx.rec {
+			return // no recording function installed (yet, or any more): nothing can be demanded of the trace
 		}
 
 		if ctx.Via != "file" {
@@ -706,6 +761,10 @@ func (s *sys) endCall(r result) {
 		found, pre := false, false
 
 		for _, c := range s.trace[ctx.from:] {
+			if c.Gen != s.gen {
+				continue // stale consultation (reported by consult): the function installed now was not asked
+			}
+
 			seen = append(seen, c.Fn.String())
 
 			for _, id := range own {
@@ -975,14 +1034,27 @@ func (s *sys) Step(i int) bfs.StepResult {
 		return bfs.StepResult{Changed: changed, Key: key, Outcome: out}
 	}
 
+	var res bfs.StepResult
+
 	switch s.plan {
 	case "readonly":
-		return s.stepReadonly(o, idx)
+		res = s.stepReadonly(o, idx)
 	case "fault":
-		return s.stepFault(o, idx)
+		res = s.stepFault(o, idx)
+	default:
+		res = s.stepLock(o, idx)
 	}
 
-	return s.stepLock(o, idx)
+	// nsteps is the position in the history (the schedule of SetFailFunc calls is
+	// keyed on it, when.go): a letter that is not applicable, or that the engine
+	// will not make part of a history because it left the state as it was, does
+	// not advance it. The fault plan computes no keys: its callers (fault.go) set
+	// nsteps themselves.
+	if res.Outcome == "n/a" || (s.plan != "fault" && !res.Changed && !res.Broken && !res.Rebuild) {
+		s.nsteps = idx
+	}
+
+	return res
 }
 
 func (s *sys) cmpRes(ctx callCtx, what string, ri, rt fsx.Res) bool {
@@ -1093,6 +1165,9 @@ func (s *sys) stepLock(o op, idx int) bfs.StepResult {
 	broken := s.compareSides(o, oi, ot, false)
 
 	poisoned := oi.poisoned() || ot.poisoned()
+
+	s.advanceFn(idx + 1)
+
 	key := s.key()
 	changed := key != s.lastKey
 	s.lastKey = key
@@ -1190,11 +1265,20 @@ func (s *sys) stepFault(o op, idx int) bfs.StepResult {
 
 	res.Viols = s.viols
 
+	s.advanceFn(idx + 1)
+
 	return res
 }
 
 func (s *sys) stepReadonly(o op, idx int) bfs.StepResult {
-	before := s.roDump()
+	// before ReadOnlyFunc is installed (when.go) the calls build the objects and
+	// the state the function will have to govern: no oracle of this plan applies
+	governed := s.governed()
+	before := ""
+
+	if governed {
+		before = s.roDump()
+	}
 
 	oi := s.apply(s.impl, 0, o, idx, false)
 	s.lastRender = oi.render()
@@ -1203,7 +1287,11 @@ func (s *sys) stepReadonly(o op, idx int) bfs.StepResult {
 		return bfs.StepResult{Outcome: "n/a", Key: s.lastKey}
 	}
 
-	after := s.roDump()
+	after := before
+	if governed {
+		after = s.roDump()
+	}
+
 	broken := false
 
 	if before != after {
@@ -1220,6 +1308,9 @@ func (s *sys) stepReadonly(o op, idx int) bfs.StepResult {
 	}
 
 	poisoned := oi.poisoned()
+
+	s.advanceFn(idx + 1)
+
 	key := s.key()
 	changed := key != s.lastKey
 	s.lastKey = key
